@@ -1,7 +1,162 @@
-(* Properties/C18.v — C18: replica migration never drops a partition below a safe quorum. *)
+(* Properties/C18.v — C18: replica migration never drops a partition below a safe quorum.
+   Only the property theorems (closed by [exact]/[apply] of lemmas of Migrate/Proofs.v) and non-vacuity examples.
+
+   Reading guide.  [run (init_state replica info auto) evs] executes an arbitrary event sequence (registered
+   data-node sets, HTTP answers of data nodes, clock advances, doCheckNamespaces rounds, bare
+   handleNamespaceMigrate / addNamespaceToNode / removeNamespaceFromNode / removeNamespaceFromRemovings calls,
+   register failures, balance rounds, node decommissioning) from a layout [info]; its second component is the list
+   of ALL register update attempts, each with the value stored before it ([a_before]), the value passed
+   ([a_value]) and whether the compare-and-swap succeeded ([a_ok]).  The placement function's proposals are
+   universally quantified event parameters, so every theorem holds whatever the placement answers. *)
 From ZV Require Import Migrate.Consts Migrate.Model Migrate.Proofs.
 Open Scope N_scope.
 
-Theorem C18_placeholder : forall r v g r' o a, reg_update r v g = (r', o, a) -> r_counter r <= r_counter r'.
-Proof. exact reg_update_counter_mono. Qed.
-Print Assumptions C18_placeholder.
+(* (0) what Inv says, clause by clause *)
+Theorem C18_inv_clauses : forall replica i, Inv replica i ->
+  len (removings i) <= 1 /\                                   (* at most one replica marked for removal *)
+  replica / 2 < len (isr i) /\                                (* remaining replicas: strict majority of the replication factor *)
+  NoDup (raft_nodes i) /\                                     (* all on distinct nodes *)
+  NoDup (map snd (raft_ids i)) /\                             (* raft ids injective *)
+  (forall n id, In (n, id) (raft_ids i) -> id <= max_id i) /\ (* every id <= MaxRaftID *)
+  (forall n, In n (map fst (raft_ids i)) <-> In n (raft_nodes i)) /\
+  (forall n, In n (map fst (removings i)) -> In n (raft_nodes i)).
+Proof.
+  intros replica i [Hw [Hl Hq]]. repeat split; try assumption;
+    try apply (wf_nodes_nodup _ Hw); try apply (wf_ids_inj _ Hw); try apply (wf_ids_max _ Hw);
+    try apply (wf_ids_keys _ Hw); apply (wf_rm_sub _ Hw).
+Qed.
+Print Assumptions C18_inv_clauses.
+
+(* (1) for every replication factor, every valid start layout and every event sequence: every value passed
+       to the register (successful or not) and the final stored value satisfy Inv *)
+Theorem C18_inv_on_every_write : forall replica info auto evs,
+  Inv replica info ->
+  Forall (fun a => Inv replica (a_before a) /\ Inv replica (a_value a)) (snd (run (init_state replica info auto) evs)) /\
+  Inv replica (r_info (s_reg (fst (run (init_state replica info auto) evs)))).
+Proof.
+  intros replica info auto evs Hi.
+  assert (H0 : Inv (s_replica (init_state replica info auto)) (r_info (s_reg (init_state replica info auto))))
+    by (simpl; apply Inv_set_epoch; exact Hi).
+  destruct (run_spec _ evs H0) as [_ [H1 [H2 _]]]. split; [|exact H1].
+  eapply Forall_impl; [|exact H2]. intros a [[Ha [Hb _]] _]. split; assumption.
+Qed.
+Print Assumptions C18_inv_on_every_write.
+
+(* (2) one step of the history: each attempt is made against the value stored at that moment (chain), never
+       decreases MaxRaftID, keeps an id or draws a fresh one above MaxRaftID, adds at most one node, and
+       drops only a replica that was marked removing *)
+Theorem C18_history_steps : forall replica info auto evs,
+  Inv replica info ->
+  chain (set_epoch info 1) (snd (run (init_state replica info auto) evs))
+        (r_info (s_reg (fst (run (init_state replica info auto) evs)))) /\
+  Forall (fun a => trans (a_before a) (a_value a)) (snd (run (init_state replica info auto) evs)).
+Proof.
+  intros replica info auto evs Hi.
+  assert (H0 : Inv (s_replica (init_state replica info auto)) (r_info (s_reg (init_state replica info auto))))
+    by (simpl; apply Inv_set_epoch; exact Hi).
+  destruct (run_spec _ evs H0) as [_ [_ [H2 H3]]]. split; [exact H3|].
+  eapply Forall_impl; [|exact H2]. intros a [[_ [_ Ht]] _]. exact Ht.
+Qed.
+Print Assumptions C18_history_steps.
+
+(* (3) raft ids are never reused: an id newly assigned by any attempt occurs neither in the start layout nor in
+       any value stored before that attempt *)
+Theorem C18_ids_never_reused : forall replica info auto evs,
+  Inv replica info ->
+  never_reused (ids_of info) (snd (run (init_state replica info auto) evs)).
+Proof.
+  intros replica info auto evs Hi.
+  assert (H0 : Inv (s_replica (init_state replica info auto)) (r_info (s_reg (init_state replica info auto))))
+    by (simpl; apply Inv_set_epoch; exact Hi).
+  destruct (run_spec _ evs H0) as [_ [_ [H2 H3]]].
+  eapply chain_never_reused with (replica := replica); [exact H3| |].
+  - eapply Forall_impl; [|exact H2]. intros a [Ha _]. exact Ha.
+  - intros id Hid. unfold ids_of in Hid. apply in_map_iff in Hid. destruct Hid as [[n id'] [He Hid]]. simpl in He. subst.
+    destruct Hi as [Hw _]. simpl. apply (wf_ids_max _ Hw n id Hid).
+Qed.
+Print Assumptions C18_ids_never_reused.
+
+(* (4) in every state reachable from a valid layout, every attempt of every next event satisfies the clause of
+       that event kind (step_P): for doCheckNamespaces and handleNamespaceMigrate, att_sync and att_alive;
+       for rebalanceNamespace and processRemovingNodes, att_sync and att_mark_ready *)
+Theorem C18_reachable_step : forall replica info auto evs e,
+  Inv replica info ->
+  let s := fst (run (init_state replica info auto) evs) in
+  Forall (fun a => att_ok replica a /\ step_P s e a) (snd (step s e)).
+Proof.
+  intros replica info auto evs e Hi s.
+  assert (H0 : Inv (s_replica (init_state replica info auto)) (r_info (s_reg (init_state replica info auto))))
+    by (simpl; apply Inv_set_epoch; exact Hi).
+  destruct (run_spec _ evs H0) as [Hr [H1 _]]. fold s in Hr, H1. simpl in Hr.
+  assert (Hs := step_spec s e). rewrite Hr in Hs. specialize (Hs H1).
+  destruct (step s e) as [[s' rt] w]. destruct Hs as [_ [_ [H2 _]]]. simpl. rewrite Hr in H2. exact H2.
+Qed.
+Print Assumptions C18_reachable_step.
+
+(* (4a) spelled out: a node is added by the control flows only when no removal is pending and every current
+        replica answered synced; (4b) the coordinator marks a removal in doCheckNamespaces /
+        handleNamespaceMigrate only when more than replica/2 of the replicas are on registered nodes;
+        (4c) in a balance round or a node decommission only when every remaining replica answered synced, and
+        those are a strict majority *)
+Theorem C18_add_only_when_synced : forall env a,
+  att_sync env a -> new_node a ->
+  removings (a_before a) = [] /\ forall n, In n (isr (a_before a)) -> synced_of env n = true.
+Proof.
+  intros env a Hs Hn. destruct (Hs Hn) as [H1 H2]. split; [exact H2|].
+  intros n Hin. eapply all_ready_synced; eassumption.
+Qed.
+Print Assumptions C18_add_only_when_synced.
+
+Theorem C18_mark_needs_alive_majority : forall replica cur a,
+  att_alive replica cur a -> new_mark a -> replica / 2 < count_in cur (raft_nodes (a_before a)).
+Proof. intros replica cur a H Hm. exact (H Hm). Qed.
+Print Assumptions C18_mark_needs_alive_majority.
+
+Theorem C18_mark_in_balance_needs_ready_majority : forall replica env a,
+  att_ok replica a -> att_mark_ready env a -> new_mark a ->
+  replica / 2 < len (isr (a_before a)) /\ forall n, In n (isr (a_before a)) -> synced_of env n = true.
+Proof.
+  intros replica env a [[_ [_ Hq]] _] Hr Hm. split; [exact Hq|].
+  intros n Hin. eapply all_ready_synced; [exact (Hr Hm)|exact Hin].
+Qed.
+Print Assumptions C18_mark_in_balance_needs_ready_majority.
+
+(* ---------- non-vacuity ---------- *)
+(* a valid 3-replica layout on nodes 1,2,3; all five nodes registered and answering; node 3 is lost; after the
+   wait interval the check marks it removing; the data nodes drop it; after the removing wait the check takes it
+   out of RaftNodes and, in the same round, adds node 4 with the fresh id 4; register content at the end *)
+Definition ex_info : rinfo := mkInfo [1;2;3] [(1,1);(2,2);(3,3)] [] 3 0.
+Definition ex_members (l : list (N * N)) : option (option (list (N * N)) * bool) := Some (Some l, true).
+Definition ex_events : list event :=
+  [ ENodes [1;2;3;4;5];
+    EAnswer [(1, ex_members [(1,1);(2,2);(3,3)]); (2, ex_members [(1,1);(2,2);(3,3)]); (3, ex_members [(1,1);(2,2);(3,3)])];
+    ENodes [1;2;4;5];
+    ECheck true (PList [1;2;4]) (PList [1;2;4]);
+    ETick 18;
+    ECheck true (PList [1;2;4]) (PList [1;2;4]);
+    EAnswer [(1, ex_members [(1,1);(2,2)]); (2, ex_members [(1,1);(2,2)]); (3, None)];
+    ETick 6;
+    ECheck true (PList [1;2;4]) (PList [1;2;4]);
+    ETick 18;
+    ECheck true (PList [1;2;4]) (PList [1;2;4]) ].
+
+Example C18_ex_valid : Inv 3 ex_info.
+Proof.
+  split; [constructor; simpl|split; [vm_compute; discriminate|vm_compute; reflexivity]].
+  - repeat constructor; simpl; intuition discriminate.
+  - repeat constructor; simpl; intuition discriminate.
+  - intros n; tauto.
+  - repeat constructor; simpl; intuition discriminate.
+  - intros n id [H|[H|[H|[]]]]; inversion H; subst; vm_compute; discriminate.
+  - constructor.
+  - intros n [].
+Qed.
+
+Example C18_ex_run :
+  let res := run (init_state 3 ex_info true) ex_events in
+  map (fun a => (raft_nodes (a_value a), map fst (removings (a_value a)), max_id (a_value a), a_ok a)) (snd res) =
+    [ ([1;2;3], [3], 3, true);        (* node 3 marked removing *)
+      ([1;2], [], 3, true);           (* removal finished *)
+      ([1;2;4], [], 4, true) ]        (* replacement added with the fresh id 4 *)
+  /\ raft_ids (r_info (s_reg (fst res))) = [(1,1);(2,2);(4,4)].
+Proof. vm_compute. split; reflexivity. Qed.
